@@ -379,7 +379,7 @@ func evRec(ev string, idx int, val Val, vals map[string]Val) map[string]any {
 
 // event emits a resource event: it mutates the truth and, if the gateway is
 // subscribed, hands the event over. a and val parameterise the event.
-func (s *Sim) event(sname, ev string, a int, kname string, val Val, force bool) bool {
+func (s *Sim) event(sname, ev string, a int, kname string, val Val, force bool, more map[string]Val) bool {
 	w := s.w
 	w.mu.Lock()
 	real := sname
@@ -412,6 +412,12 @@ func (s *Sim) event(sname, ev string, a int, kname string, val Val, force bool) 
 		s.seq[sname]++
 		seq := s.seq[sname]
 		ch := map[string]Val{kname: val, "_seq": {T: "p", V: fmt.Sprint(seq)}}
+		for k, v := range more {
+			// further keys of the same event; removing a key that is not there is left out
+			if _, has := c.M[k]; k != kname && k != "_seq" && (v.T != "x" || has) {
+				ch[k] = v
+			}
+		}
 		for k, v := range ch {
 			if v.T == "x" {
 				delete(c.M, k)
